@@ -1120,7 +1120,7 @@ func (d *dealer) syncYield(callee *wamp.Session, msg *wamp.Yield, progress, canR
 
 		// Clean up the invocation, unless need to retry.
 		defer func() {
-			if keepInvocation || invk.inProgress {
+			if keepInvocation {
 				return
 			}
 			delete(d.invocations, invkReqID)
